@@ -12,6 +12,8 @@ N(n) == <<0, 0, n \div 65536, n % 65536>>                      \* n < 2^31
 MCAlphabet == {97, 37, 100, 120, 111, 115, 116, 49, 52, 48}
 \* 'a' '%' 'd' 's' '1' '0'
 MCAlphabet2 == {97, 37, 100, 115, 49, 48}
+\* 'a' '%' 'd' '1'  (quick tier)
+MCAlphabet2Quick == {97, 37, 100, 49}
 MCScanVals == {I("int", TRUE, N(5)), S("string", <<120, 121>>), Bv(TRUE)}
 
 M63 == <<32768, 0, 0, 0>>
